@@ -26,9 +26,10 @@
    hence C01 stays partly `_partial`): the lower bound "scale >= scale of the
    last recomputation" (needs monotonicity of the bounding box in an ordered
    field), the interpolation VALUES of intervals cut by pending points (their
-   KEYS are proved), and the batch path of tell_many (excluded by [legal]). *)
+   KEYS are proved), and the ghost-free lower bound; the batch path of tell_many IS covered
+   (Proofs/L1DBatch.v: it re-establishes all invariants from scratch). *)
 From Coq Require Import ZArith Lia.
-From AV Require Import Base.Prelude Model.L1D Proofs.L1DOrder Proofs.L1DMaps Proofs.L1DStruct Proofs.L1DLoss Proofs.L1DValues Proofs.L1DProofs.
+From AV Require Import Base.Prelude Model.L1D Proofs.L1DOrder Proofs.L1DMaps Proofs.L1DStruct Proofs.L1DLoss Proofs.L1DValues Proofs.L1DBatch Proofs.L1DProofs.
 
 Section C01.
   Variable num : Type.
@@ -43,14 +44,24 @@ Section C01.
 
   Let run := @run num add sub mul div ltb eqb zero one inf neg_inf is_nan is_inf round12 of_nat L P.
   Let init := @init num sub zero inf neg_inf P.
-  Let legal := @legal num add sub mul div ltb eqb zero one inf neg_inf is_nan is_inf round12 of_nat L P.
+  (* the quantifier domain (see Proofs/L1DBatch.v): told points inside the bounds;
+     a batched tell only when afterwards both end points are known or pending *)
+  Let legal := @L1DBatch.legal num add sub mul div ltb eqb zero one inf neg_inf is_nan is_inf round12 of_nat L P.
   Let loss := @loss num sub div ltb eqb inf is_nan is_inf round12 P.
   Let sweep := @sweep num sub mul div ltb eqb zero one is_nan is_inf round12 L P.
   Let get_loss := @get_loss num sub div ltb eqb zero one L P.
 
+  Lemma reach_inv : OrdLaws ltb eqb -> forall h, legal init h = true ->
+    L1DBatch.Inv sub mul div ltb eqb zero one L P (run init h).
+  Proof.
+    intros OL h Hl.
+    exact (@full_inv num add sub mul div ltb eqb zero one inf neg_inf is_nan is_inf round12 of_nat L P OL h init
+             (inv_init add sub mul div ltb eqb zero one inf neg_inf is_nan is_inf round12 L P) Hl).
+  Qed.
+
   Theorem C01_structure_inv : OrdLaws ltb eqb -> forall h,
     legal init h = true -> SInv ltb eqb (run init h).
-  Proof. exact (@structure_inv num add sub mul div ltb eqb zero one inf neg_inf is_nan is_inf round12 of_nat L P). Qed.
+  Proof. intros OL h Hl. exact (proj1 (reach_inv OL h Hl)). Qed.
 
   (* every stored loss is the loss function applied to the CURRENT data (the
      2+2*nn neighbouring evaluated points of the current point set, current
@@ -60,12 +71,7 @@ Section C01.
   Theorem C01_values_inv : OrdLaws ltb eqb -> forall h,
     legal init h = true ->
     VInv sub mul div ltb eqb zero one L P (run init h).
-  Proof.
-    intros OL h Hl.
-    exact (proj2 (@values_inv num add sub mul div ltb eqb zero one inf neg_inf is_nan is_inf round12 of_nat L P OL h init
-                    (conj (sinv_init add sub mul div ltb eqb zero inf neg_inf is_nan is_inf round12 P)
-                          (vinv_init sub mul div ltb eqb zero one inf neg_inf L P)) Hl)).
-  Qed.
+  Proof. intros OL h Hl. exact (proj2 (proj2 (reach_inv OL h Hl))). Qed.
 
   (* the first sentence of the property, in one statement: on every reachable
      state with both end points evaluated-or-pending, loss() is the loss
@@ -83,9 +89,7 @@ Section C01.
                (loss_of sub div ltb eqb zero one L P (nb s) (data s) (sx s) g' a' b') (mgrx s)) = false.
   Proof.
     intros OL h Hl s.
-    destruct (@values_inv num add sub mul div ltb eqb zero one inf neg_inf is_nan is_inf round12 of_nat L P OL h init
-                (conj (sinv_init add sub mul div ltb eqb zero inf neg_inf is_nan is_inf round12 P)
-                      (vinv_init sub mul div ltb eqb zero one inf neg_inf L P)) Hl) as [HI HV].
+    destruct (reach_inv OL h Hl) as [HI [_ HV]].
     exact (@reported_loss num sub mul div ltb eqb zero one inf is_nan is_inf round12 L P OL s HI HV).
   Qed.
 
@@ -128,17 +132,18 @@ Definition zP : params Z := mkparams 0%Z 100%Z 0%Z 0 2%Z.
 Definition zL (xs : list (option Z)) (ys : list (option (Y Z))) : Z := 7%Z.
 Definition zh : list (op Z) :=
   [Tell 0%Z (YS 5%Z); Tell 100%Z (YS 9%Z); TellPending 50%Z; Ask 2 true;
-   Tell 50%Z (YS 400%Z); RemoveUnfinished; Tell 25%Z (YS 1%Z)].
+   Tell 50%Z (YS 400%Z); RemoveUnfinished; Tell 25%Z (YS 1%Z);
+   TellPending 10%Z; TellMany [(75%Z, YS 3%Z); (60%Z, YS 2%Z)] true].
 Definition zrun := @run Z Z.add Z.sub Z.mul Z.div Z.ltb Z.eqb 0%Z 1%Z 1000000000%Z (-1000000000)%Z
                         (fun _ => false) (fun z => Z.eqb (Z.abs z) 1000000000%Z) (fun z => z) Z.of_nat zL zP.
 Definition zinit := @init Z Z.sub 0%Z 1000000000%Z (-1000000000)%Z zP.
 Example C01_example :
-  @legal Z Z.add Z.sub Z.mul Z.div Z.ltb Z.eqb 0%Z 1%Z 1000000000%Z (-1000000000)%Z
+  @L1DBatch.legal Z Z.add Z.sub Z.mul Z.div Z.ltb Z.eqb 0%Z 1%Z 1000000000%Z (-1000000000)%Z
          (fun _ => false) (fun z => Z.eqb (Z.abs z) 1000000000%Z) (fun z => z) Z.of_nat zL zP zinit zh = true /\
-  map fst (los (zrun zinit zh)) = [(0, 25); (25, 50); (50, 100)]%Z /\
+  map fst (los (zrun zinit zh)) = [(0, 25); (25, 50); (50, 60); (60, 75); (75, 100)]%Z /\
   SInv Z.ltb Z.eqb (zrun zinit zh).
 Proof.
-  assert (Hl : @legal Z Z.add Z.sub Z.mul Z.div Z.ltb Z.eqb 0%Z 1%Z 1000000000%Z (-1000000000)%Z
+  assert (Hl : @L1DBatch.legal Z Z.add Z.sub Z.mul Z.div Z.ltb Z.eqb 0%Z 1%Z 1000000000%Z (-1000000000)%Z
          (fun _ => false) (fun z => Z.eqb (Z.abs z) 1000000000%Z) (fun z => z) Z.of_nat zL zP zinit zh = true)
     by (vm_compute; reflexivity).
   split; [exact Hl|]. split; [vm_compute; reflexivity|].
